@@ -106,8 +106,9 @@ def part_tree(ctx):
             ver = (m.get("files") or {}).get(name)
             want = outcome(ver, kind)
             ctx.count("tree:%s/%s" % (ver, kind))
-            if got.get("absolute") != got.get("relative"):
-                ctx.fail("a file is parsed differently when named relatively and absolutely", cc, None, {"file": name, "got": got})
+            if len(set(got.values())) > 1:
+                ctx.fail("a file is parsed differently depending on how its path is spelled (relative / absolute / ./ / "
+                         "from its own directory / from the parent of the root)", cc, None, {"file": name, "got": got})
             elif got.get("absolute") != want:
                 ctx.brk("InputFromPaths (version per file) ~ Version.lookup∘allVersions", cc, {"file": name, "got": got},
                         {"version": ver, "want": want})
